@@ -1085,6 +1085,9 @@ def reshape(ctx, a, shape, origin=None, order='C'):
         raise AnalysisError(f"reshape order {order!r} is not modelled")
     if not (shape_prod(shape) - a.size()).is_zero():
         raise AbstractRaise('ValueError', f"cannot reshape array of size {a.size()} into shape {tuple(map(str, shape))}")
+    if a.ndim == 1 and a.label and a.label[0] == 'flatvec':
+        # opaque flat vector indexed by C-order cell number -> nd array of the same atoms
+        return a.label[1](shape)
     # dropping / adding unit axes only
     nz_a = [d for d in a.shape if not (d.is_const() and d.const_value() == 1)]
     nz_s = [d for d in shape if not (d.is_const() and d.const_value() == 1)]
